@@ -95,6 +95,8 @@ pub struct Shape {
     pub fixed_persisted: Option<u64>,
     /// concrete (check_quorum, pre_vote, skip_bcast_commit); None = symbolic
     pub fixed_flags: Option<(bool, bool, bool)>,
+    /// (pre)candidates: the votes recorded so far (must contain (ME, true))
+    pub votes: &'static [(u64, bool)],
 }
 
 pub const V3: &[u64] = &[1, 2, 3];
@@ -121,7 +123,12 @@ impl Shape {
             fixed_etypes: &[],
             fixed_persisted: None,
             fixed_flags: None,
+            votes: &[],
         }
+    }
+    pub const fn with_votes(mut self, v: &'static [(u64, bool)]) -> Shape {
+        self.votes = v;
+        self
     }
     pub const fn with_persisted(mut self, p: u64) -> Shape {
         self.fixed_persisted = Some(p);
@@ -407,7 +414,9 @@ pub fn mk_raft(s: &mut Src, sh: &Shape) -> (Raft<VStore>, Ghost) {
     // ---- tracker (CI holds by construction of the shape lists)
     let last = sh.last();
     let (ids, nids) = sh.ids();
-    let mut slots: [Option<(u64, Progress)>; CAP] = std::array::from_fn(|_| None);
+    // (not `array::from_fn`: MaybeUninit writes defeat constant propagation)
+    const NONE_P: Option<(u64, Progress)> = None;
+    let mut slots: [Option<(u64, Progress)>; CAP] = [NONE_P; CAP];
     i = 0;
     while i < nids {
         let mut p = Progress::new(last + 1, sh.max_inflight);
@@ -416,7 +425,14 @@ pub fn mk_raft(s: &mut Src, sh: &Shape) -> (Raft<VStore>, Ghost) {
         i += 1;
     }
     let progress: ProgressMap = HashMap::verif_from_slots(slots);
-    let prs = ProgressTracker::verif_from_parts(progress, conf_of(sh), HashMap::default(), sh.max_inflight, false);
+    let mut vslots: [Option<(u64, bool)>; CAP] = [None; CAP];
+    i = 0;
+    while i < sh.votes.len() {
+        vslots[i] = Some(sh.votes[i]);
+        i += 1;
+    }
+    let votes: HashMap<u64, bool> = HashMap::verif_from_slots(vslots);
+    let prs = ProgressTracker::verif_from_parts(progress, conf_of(sh), votes, sh.max_inflight, false);
     let mut r = Raft::verif_from_parts(&cfg, store, &lg, prs);
     // ---- unstable suffix
     i = sh.n_stable;
